@@ -16,7 +16,7 @@ def run(ctx):
         "in-flight job), set of archived paths. After every treat_output: column increments of the summed fractions are exactly 1/0, "
         "only idle live paths change and only where their weight is non-zero, data-file rows appended = the replaced paths of an "
         "accepted move; at the end rows + [current.frac] of the restart file = idle counts. "
-        "Non-trivial: >=1 step with a busy column and >=1 replacement. Distinct = digest of the case. Additionally an exhaustive in-memory exploration (checks/enumsys.py) of small systems (3-4 interfaces; thorough: up to 5): every completion order x every move outcome from {reject, accept-minimal, accept-far} x every result of the scheduler's random choices, run to closure of the reachable (weight matrix, busy marks, in-flight jobs) states with the same invariants."
+        "Non-trivial: >=1 step with a busy column and >=1 replacement. Distinct = digest of the case. Additionally an exhaustive in-memory exploration (checks/enumsys.py) of small systems (3-4 interfaces; thorough: up to 5): every completion order x every move outcome from {reject, accept-minimal, accept-far} x every result of the scheduler's random choices, run to closure of the reachable (weight matrix, busy marks, in-flight jobs) states with the same invariants; in every state also a kill + restart from the last restart record (the restarted run's picks are enumerated too and its states join the exploration)."
     )
     from checks import enumsys
 
